@@ -180,6 +180,10 @@ func (code128Encoder) encodeWithHints(contentsStr string, hints map[gozxing.Enco
 						return nil, gozxing.NewWriterException(
 							"IllegalArgumentException: Bad number of characters for digit only encoding.")
 					}
+					if next := contents[position+1]; next < '0' || next > '9' {
+						return nil, gozxing.NewWriterException(
+							"IllegalArgumentException: Bad character in input for digit only encoding: value=%v", int(next))
+					}
 					patternIndex = (int(contents[position])-'0')*10 + (int(contents[position+1]) - '0')
 					position++ // Also incremented below
 					break
